@@ -5,8 +5,59 @@
 -/
 import Gozod.Model.LockSet
 import Gozod.Gen.LockSets
+import Gozod.Model.LockOrder
+import Gozod.Gen.LockOrder
+import Gozod.Model.Conc
 namespace Gozod.Drv.C14
 open Gozod.LockSet
+
+/-! `c14 hist <kind> <id>/<op>/<res>/<inv>/<ret> …` — a history recorded from the real registry / configuration by
+    harness/racex.  Model column: does `Conc.linearizable` find a linearization against the sequential specification
+    `Conc.apply` (from the empty registry and the zero configuration)?  Spec column: `lin` — the property. -/
+
+def nat (s : String) : Nat := s.toNat?.getD 0
+
+def parseOp (s : String) : Option Conc.Op :=
+  match s.splitOn "." with
+  | ["A", k, v] => some (.add (nat k) (nat v))
+  | ["G", k] => some (.get (nat k))
+  | ["H", k] => some (.has (nat k))
+  | ["R", k] => some (.remove (nat k))
+  | ["K"] => some .rangeKeys
+  | ["C"] => some .cfgGet
+  | ["Z"] => some .cfgReset
+  | ["S", c, l] => some (.cfgSet (nat c) (nat l))
+  | _ => none
+
+def parseRes (s : String) : Option Conc.Res :=
+  match s.splitOn "." with
+  | ["u"] => some .unit
+  | ["f", v] => some (.found (nat v))
+  | ["m"] => some .missing
+  | ["b", b] => some (.bool (b == "1"))
+  | ["c", c, l] => some (.cfg (nat c) (nat l))
+  | "k" :: ks => some (.keys (ks.map nat))
+  | _ => none
+
+def parseCall (s : String) : Option Conc.Call :=
+  match s.splitOn "/" with
+  | [id, op, res, inv, ret] =>
+    match parseOp op, parseRes res with
+    | some o, some r => some ⟨nat id, o, r, nat inv, nat ret⟩
+    | _, _ => none
+  | _ => none
+
+def histVerdict (calls : List String) : String :=
+  match calls.mapM parseCall with
+  | none => "bad-history"
+  | some h =>
+    if !(h.all (fun c => c.inv ≤ c.ret)) then "bad-history"
+    else if Conc.linearizable Conc.St.init h then "lin" else "nonlin"
+
+/-- `lockorder`: what the lock-order model computes on the regenerated table (shown in the evidence) -/
+def lockOrderLine : String :=
+  let t := Gen.LockOrder.table
+  s!"order={LockOrder.order t} edges={LockOrder.edges t} callbacks-under-lock={LockOrder.cbUnderLock t} disciplined={LockOrder.disciplined t []}"
 
 /-- `conflicts`: the cells of the regenerated table (outside `knownRacy`) that are not `ok`, as
     `<loc>=<fn>+<fn>` joined by `,` — used to aim the race harness when the table proof breaks. -/
@@ -20,6 +71,8 @@ def conflictLine : String :=
 def handle : List String → String
   | ["conflicts"] => s!"conflicts:{conflictLine}"
   | ["race", _] => "norace ok\tnorace ok"
+  | "hist" :: _ :: calls => s!"{histVerdict calls}\tlin"
+  | ["lockorder"] => lockOrderLine
   | _ => "bad-op"
 
 end Gozod.Drv.C14
